@@ -159,7 +159,7 @@ descriptor_names = st.sampled_from([
     "json.JSONDecoder", "types.SimpleNamespace",
     # classes whose instances cannot be printed (fuzz/canary/vhostile.py)
     "vhostile.NeedsFields", "vhostile.ReprValueError", "vhostile.ReprKeyError", "vhostile.ReprTypeError", "vhostile.StrRaises",
-    "vhostile.Slotted",
+    "vhostile.Slotted", "vhostile.NoTruthValue", "vhostile.LenNeedsFields",
 ])
 # side-effect-free callables that give values which cannot be printed or encoded: an integer beyond the interpreter's
 # int/str conversion limit, a complex number, a range, bytes.  (builtins.float("nan"/"inf") is left out by construction: echoing it is
@@ -167,7 +167,9 @@ descriptor_names = st.sampled_from([
 UNPRINTABLE = [["builtins.pow", [10, 5000]], ["builtins.pow", [7, 20000]], ["builtins.complex", [1, 2]], ["builtins.range", [3]],
                ["builtins.bytes", [3]], ["builtins.frozenset", [[1]]],
                ["builtins.memoryview", [{"__jsonclass__": ["builtins.bytes", [2]]}]], ["builtins.slice", [1]],
-               ["vhostile.NeedsFields", []], ["vhostile.ReprValueError", []]]
+               ["vhostile.NeedsFields", []], ["vhostile.ReprValueError", []],
+               # loaded values whose truth value cannot be asked for
+               ["vhostile.NoTruthValue", []], ["vhostile.LenNeedsFields", []], ["jsonrpclib.jsonrpc.MultiCallIterator", [None]]]
 descriptor_args = gen.pick(st.lists(gen.json_values(3), max_size=2), st.dictionaries(st.sampled_from(["a", "value"]), gen.json_values(3), max_size=2),
                             gen.json_values(3))
 
@@ -203,7 +205,7 @@ OTHER_ENTRIES = [1, "x", None, [], {}, [1], True, {"jsonrpc": "2.0", "method": "
 @st.composite
 def descriptor_cases(draw):
     dv = draw(descriptor_values())
-    wrap = draw(st.sampled_from(["param", "nested", "kw", "top", "batch", "id", "method", "noversion", "noversion-id", "version", "params"]))
+    wrap = draw(st.sampled_from(["param", "nested", "kw", "top", "batch", "id", "method", "noversion", "noversion-id", "version", "params", "whole", "whole"]))
     if wrap == "param":
         req = {"jsonrpc": "2.0", "id": 1, "method": "echo", "params": [dv]}
     elif wrap == "nested":
@@ -225,6 +227,9 @@ def descriptor_cases(draw):
         req = draw(others) + [carrier] + draw(others)
     elif wrap == "id":
         req = {"jsonrpc": "2.0", "id": dv, "method": "echo", "params": []}
+    elif wrap == "whole":
+        # the body is nothing but the descriptor: what is loaded *is* the request
+        req = dv
     elif wrap == "noversion":
         # an object that is no request: the reply quotes it
         req = {draw(st.sampled_from(["x", "data", "foo"])): dv}
